@@ -18,12 +18,14 @@ package c02
 
 import (
 	"bytes"
+	"context"
 	"crypto/sha256"
 	"encoding/base64"
 	"encoding/hex"
 	"errors"
 	"fmt"
 	"io"
+	"os"
 	"sort"
 	"strings"
 	"testing"
@@ -38,6 +40,31 @@ import (
 var rec *mon.Rec
 
 var errBoom = errors.New("boom (injected source-reader error)")
+
+// timeoutErr looks like what a network connection reports (net.Error).
+type timeoutErr struct{}
+
+func (timeoutErr) Error() string   { return "read tcp 10.0.0.1:443: i/o timeout (injected)" }
+func (timeoutErr) Timeout() bool   { return true }
+func (timeoutErr) Temporary() bool { return true }
+
+// srcErrors is the family of errors a failing source reader reports: the
+// private sentinel and the values real readers produce when their data is cut
+// short or their context ends (http bodies, gzip, io.ReadFull-based readers,
+// pipes, deadlines). None of them is io.EOF and none wraps io.EOF.
+var srcErrors = []struct {
+	name string
+	err  error
+}{
+	{"", errBoom}, // class "srcerr"
+	{"unexpected-eof", io.ErrUnexpectedEOF},
+	{"wrapped-unexpected-eof", fmt.Errorf("http: reading body: %w", io.ErrUnexpectedEOF)},
+	{"no-progress", io.ErrNoProgress},
+	{"closed-pipe", io.ErrClosedPipe},
+	{"context-canceled", context.Canceled},
+	{"wrapped-deadline-exceeded", fmt.Errorf("read: %w", os.ErrDeadlineExceeded)},
+	{"net-timeout", timeoutErr{}},
+}
 
 const keyName = "c02-kek"
 
@@ -200,6 +227,7 @@ type mutant struct {
 	unwrap           enc.UnwrapKeyFn // nil: the honest one
 	failAt           int             // source error injected at this offset (only if srcErr)
 	failWithData     bool
+	failErr          error // the error the source reports (nil: errBoom)
 	srcErr           bool
 }
 
@@ -253,6 +281,7 @@ type partsReader struct {
 	limit        int
 	fail         bool
 	failWithData bool
+	failErr      error
 	eofWithData  bool
 	chunk        int
 	rng          *mon.RNG
@@ -269,7 +298,7 @@ func (r *partsReader) Read(p []byte) (int, error) {
 	if r.pos >= r.limit {
 		r.term = io.EOF
 		if r.fail {
-			r.term = errBoom
+			r.term = r.failErr
 		}
 		return 0, r.term
 	}
@@ -286,8 +315,8 @@ func (r *partsReader) Read(p []byte) (int, error) {
 	r.pos += n
 	if r.pos == r.limit {
 		if r.fail && r.failWithData {
-			r.term = errBoom
-			return n, errBoom
+			r.term = r.failErr
+			return n, r.failErr
 		}
 		if !r.fail && r.eofWithData {
 			r.term = io.EOF
@@ -310,7 +339,10 @@ func run(m *mutant, rng *mon.RNG) (o outcome) {
 	r := &partsReader{parts: m.parts, limit: m.length(), rng: rng}
 	o.style = "all-at-once"
 	if m.srcErr {
-		r.fail, r.limit, r.failWithData = true, m.failAt, m.failWithData
+		r.fail, r.limit, r.failWithData, r.failErr = true, m.failAt, m.failWithData, m.failErr
+		if r.failErr == nil {
+			r.failErr = errBoom
+		}
 	}
 	if rng != nil {
 		if rng.Chance(3, 10) {
@@ -393,6 +425,7 @@ func (j *judgeCtx) replay(m *mutant, o outcome) map[string]any {
 	if m.srcErr {
 		rp["source_error_at"] = m.failAt
 		rp["source_error_with_data"] = m.failWithData
+		rp["source_error_value"] = fmt.Sprintf("%T: %v", m.failErr, m.failErr)
 	}
 	return rp
 }
@@ -497,6 +530,16 @@ func (j *judgeCtx) judge(m *mutant) {
 	}
 	if m.srcErr {
 		rec.Count("srcerr.surfaced", 1)
+		// which error surfaced is looked at, not judged (the statement asks for "an error")
+		seen := o.decErr
+		if seen == nil {
+			seen = o.term
+		}
+		if m.failErr != nil && errors.Is(seen, m.failErr) {
+			rec.Count("srcerr.surfaced_as_the_injected_error", 1)
+		} else {
+			rec.Count("srcerr.surfaced_as_another_error", 1)
+		}
 	}
 	rec.Count("rejected_or_identical."+m.class, 1)
 }
@@ -1094,10 +1137,11 @@ func famSourceError(j *judgeCtx) {
 		add(s.Offset + s.Length + 8)
 	}
 	add(len(b.doc))
+	nEnum := len(ats)
 	for i := 0; i < mon.Pick(200, 4000) && len(b.doc) > 0; i++ {
 		add(j.rng.Intn(len(b.doc) + 1))
 	}
-	for _, a := range ats {
+	for ai, a := range ats {
 		for _, withData := range []bool{false, true} {
 			if withData && a.k == 0 {
 				continue
@@ -1107,8 +1151,21 @@ func famSourceError(j *judgeCtx) {
 				pos += "+data"
 			}
 			rec.Count("srcerr.at."+pos, 1)
-			j.judge(&mutant{class: "srcerr", pos: pos, desc: fmt.Sprintf("source reader fails at offset %d of %d (together with the last data: %v)", a.k, len(b.doc), withData),
-				parts: [][]byte{b.doc}, srcErr: true, failAt: a.k, failWithData: withData})
+			// every error of the family at the enumerated offsets (every header offset, around every
+			// boundary, mid-segment, in place of the final EOF); one seeded member at the seeded offsets
+			kinds := srcErrors
+			if ai >= nEnum {
+				k := j.rng.Intn(len(srcErrors))
+				kinds = srcErrors[k : k+1]
+			}
+			for _, e := range kinds {
+				class := "srcerr"
+				if e.name != "" {
+					class = "srcerr(" + e.name + ")"
+				}
+				j.judge(&mutant{class: class, pos: pos, desc: fmt.Sprintf("source reader fails with %q at offset %d of %d (together with the last data: %v)", e.err, a.k, len(b.doc), withData),
+					parts: [][]byte{b.doc}, srcErr: true, failAt: a.k, failWithData: withData, failErr: e.err})
+			}
 		}
 	}
 }
@@ -1214,7 +1271,7 @@ func TestCheck(t *testing.T) {
 		"segment delete/duplicate/append/swap/drop-tail/drop-head for every segment; splices with a same-length document under the same and under another key-encryption key (payload, header, MAC line, manifest, single segment, tag, body); "+
 		"nine misbehaving unwrap callbacks; one-byte insertions (7 values) and deletions at every header offset and at segment landmarks; ~110 semantic header edits (JSON re-encodings that parse to the same values: white space, member order, member-name case, \\u escapes, duplicate and unknown members, unused base64 bits of np/wfk; changes of every field; MAC-line spellings; scheme line; line structure); "+
 		"for non-empty plaintexts every one of these header edits, every single-bit flip and every one-byte insertion/deletion of the header COMBINED with dropping all segments or keeping only the first k payload bytes; "+
-		"sticky source-reader errors at every header offset, around every boundary, mid-segment, in place of the final EOF, each alone and together with the last data; seeded compound mutations. "+
+		"sticky source-reader errors at every header offset, around every boundary, mid-segment, in place of the final EOF, each alone (0, err) and together with the last data (n>0, err), and each with every member of an error family (private sentinel, io.ErrUnexpectedEOF plain and wrapped, io.ErrNoProgress, io.ErrClosedPipe, context.Canceled, wrapped os.ErrDeadlineExceeded, a net.Error-like timeout), plus seeded offsets with a seeded member; seeded compound mutations. "+
 		"Huge tamper cases (after the ordinary ones, each run by one child; quick: AES-GCM, thorough: both ciphers): kit.Encrypt of a generated 4 GiB + 128 KiB + 100 byte plaintext (65539 segments, every one different) is streamed to a scratch file, then (a) segment 65536 is replaced by a copy of segment 0 and (b) segments 1 and 65537 are swapped, the tampered document is streamed through kit.Decrypt and the released bytes are compared position by position with the generator - the only mutants in which segment numbers differ in the upper half of the nonce's 32-bit counter. "+
 		"Every mutant is decrypted by the real kit.Decrypt through an all-at-once or seeded-chunk reader and read to the end. Rule: Decrypt error OR non-EOF stream error OR (bytes == plaintext AND EOF), and the released bytes are a prefix of the plaintext; "+
 		"for a source error an error is mandatory. A payload-less mutant that kit turns into \"\" + clean EOF is classified by the independent implementation (refenc.CheckHeader: does the MAC over the raw first two lines verify?): authentic header = the known format-level finding truncate@header-end/nonempty; header rejected by the reference = a violation with the mutation's own signature; only the MAC-line spelling differs (kit lenient, reference strict) = observed, not judged. Accepted mutants with identical plaintext whose header the reference rejects are counted (accepted_identical_but_header_fails_reference_mac), not judged. Mutants equal to the original are skipped. Evaluations = mutants judged; enumerated families are distinct by construction, seeded compound mutants are keyed by their description; non-trivial = every mutant (it differs from the original or carries a fault).")
@@ -1222,6 +1279,7 @@ func TestCheck(t *testing.T) {
 		"srcerr.surfaced", "truncate.at.segment-boundary", "truncate.at.header-end", "truncate.at.segment-tag", "truncate.at.segment-body", "srcerr.at.final-eof", "srcerr.at.final-eof+data",
 		"rejected_or_identical.seg-swap", "rejected_or_identical.splice-samekek", "rejected_or_identical.splice-otherkek", "rejected_or_identical.unwrap", "rejected_or_identical.extend",
 		"huge.tamper_rejected.seg-replace", "huge.tamper_rejected.seg-swap", "huge.rejected_exactly_at_segment_65536",
+		"rejected_or_identical.srcerr", "rejected_or_identical.srcerr(unexpected-eof)", "rejected_or_identical.srcerr(wrapped-unexpected-eof)", "rejected_or_identical.srcerr(context-canceled)", "srcerr.surfaced_as_the_injected_error",
 		"rejected_or_identical.header-edit+drop-payload", "rejected_or_identical.header-edit+cut-payload", "rejected_or_identical.bitflip+drop-payload", "payloadless_accepted.header_authentic"})
 	rec.Count("accepted_identical_but_header_fails_reference_mac", 0)
 	rec.Count("payloadless_accepted.mac_line_spelling_only", 0)
